@@ -629,11 +629,24 @@ func (conn *Conn) Close() error {
 	if conn.die != nil {
 		conn.die()
 	}
-	// Drain both in and out channels to avoid a deadlock if the buffers
-	// have filled. See TestSendDeadlockOnFullBuffer in connection_test.go.
-	conn.drainIn()
-	conn.drainOut()
-	conn.wg.Wait()
+	// Keep draining both in and out channels until all the goroutines have
+	// exited, to avoid a deadlock if the buffers have filled: recv() may be
+	// blocked writing to a full conn.in, and handlers run by runLoop() (or
+	// ping()) may be blocked writing to a full conn.out, any number of times.
+	// See TestSendDeadlockOnFullBuffer in connection_test.go.
+	done := make(chan struct{})
+	go func() {
+		conn.wg.Wait()
+		close(done)
+	}()
+	for exited := false; !exited; {
+		select {
+		case <-conn.in:
+		case <-conn.out:
+		case <-done:
+			exited = true
+		}
+	}
 	conn.mu.Unlock()
 	// Dispatch after closing connection but before reinit
 	// so event handlers can still access state information.
